@@ -1,11 +1,11 @@
 ----------------------------- MODULE FF_EX -----------------------------
 (* instance EX (C14): mixed exclusion distances together with copies of the two-residue block: all connected graphs on 3       *)
-(* residues with kinds over {A, B, XX-pair} (cyclic ones included) and chains of 5..6 residues with two separate fragments      *)
+(* residues with kinds over {A, B, XX-pair} (cyclic ones included; first residue id 1 and 5) and chains of 5..6 residues with two separate fragments      *)
 EXTENDS FFExport
 MCFFs == << MkFF(<<BlockE("A", "TA", 2, 1, 1), BlockE("B", "TB", 3, 3, 2), BlockXX(2, 1, 2)>>, LinkSetE(2), <<>>),
             MkFF(<<BlockE("A", "TA", 3, 4, 3), BlockE("B", "TB", 1, 0, 1), BlockXX(1, 2, 1)>>, LinkSetE(3), <<>>) >>
 KindsX == {<<"X", "X", "A", "X", "X">>, <<"X", "X", "B", "X", "X">>, <<"A", "X", "X", "B", "X", "X">>}
-MCInputs == GraphInputs(MCFFs, {1, 2}, {3}, {1}, {"A", "B", "X"})
+MCInputs == GraphInputs(MCFFs, {1, 2}, {3}, {1, 5}, {"A", "B", "X"})
             \cup {I \in {MkInpF(MCFFs, ff, Len(kv), 1, kv, E, <<>>) : ff \in {1, 2}, kv \in KindsX, E \in {Chain(5), Chain(6), Chain(5) \cup {<<1, 5>>}}} :
                     Len(I.rn) = I.n /\ (\A e \in ToSet(I.edges) : e[2] <= I.n) /\ (\E e \in ToSet(I.edges) : e[2] = I.n) /\ DomOK(I)}
 ASSUME PrintT(<<"FFS", ToJson(MCFFs)>>)
